@@ -19,6 +19,7 @@ func init() {
 	zzsv.Register("ZZ_C08_ConstantFaults", ZZ_C08_ConstantFaults)
 	zzsv.Register("ZZ_C08_ApiSequences", ZZ_C08_ApiSequences)
 	zzsv.Register("ZZ_C08_Tails", ZZ_C08_Tails)
+	zzsv.Register("ZZ_C08_CyclicObjects", ZZ_C08_CyclicObjects)
 	zzsv.Register("ZZ_C08_OddObjects", ZZ_C08_OddObjects)
 }
 
@@ -506,4 +507,80 @@ func ZZ_C08_Tails(sv *zzsv.T) {
 	ok := zzDrive(sv, src, nil)
 	sv.Observe("ok", ok)
 	sv.Assert("C08.tails.nopanic", ok)
+}
+
+type zzC08Node struct {
+	Name string
+	Next *zzC08Node
+	Kids []*zzC08Node
+	M    map[string]interface{}
+	L    []interface{}
+	Any  interface{}
+}
+
+// ZZ_C08_CyclicObjects: host objects that contain themselves - a struct
+// reachable from its own pointer fields, a map stored under one of its own
+// keys (as the object, in a field, inside a slice), a slice that is its own
+// member: every run returns (a value or an error; the process is still
+// there), and the plain fields next to the cycle still read correctly.
+func ZZ_C08_CyclicObjects(sv *zzsv.T) {
+	sv.MustTerminate("C08.cyclic.returns", 20)
+	name := zzASCII(sv, "name", 1)
+	n := &zzC08Node{Name: name}
+	m := map[string]interface{}{"Name": name}
+	var obj interface{}
+	switch sv.Choice("shape", 7) {
+	case 0: // a struct that points to itself
+		n.Next = n
+		n.Kids = []*zzC08Node{n, n}
+		n.Any = n
+		obj = n
+	case 1: // a map stored under its own key, as the object
+		m["self"] = m
+		obj = m
+	case 2: // ... in a field of the object
+		m["self"] = m
+		n.M = m
+		obj = n
+	case 3: // ... two maps holding each other
+		m2 := map[string]interface{}{"back": m}
+		m["fwd"] = m2
+		obj = m
+	case 4: // ... through a slice
+		m["list"] = []interface{}{1, m}
+		obj = m
+	case 5: // a slice that is its own member
+		l := []interface{}{"x", nil}
+		l[1] = l
+		n.L = l
+		obj = n
+	default: // a map inside an interface field inside a slice of the map
+		m["any"] = []interface{}{map[string]interface{}{"up": m}}
+		n.Any = m
+		n.M = m
+		obj = n
+	}
+	scripts := []string{"return Name;", "return len(Name) + 1;", "x = self; y = M; return Name;", "foreach k, v in M { t = k; } return Name;", "return string(self) + string(L) + Name;"}
+	e := New(scripts[sv.Choice("script", len(scripts))])
+	sv.Note("script", e.Script)
+	sv.Assume(e.Prepare() == nil)
+	var out object.Object
+	var err error
+	ok := zzNoPanic(func() {
+		sv.StdoutStart()
+		out, err = e.Execute(obj)
+		_, _ = e.Run(obj)
+		sv.StdoutEnd()
+	})
+	sv.Assert("C08.cyclic.nopanic", ok)
+	if !ok || err != nil {
+		return
+	}
+	zzDescribe(sv, "result", out, err)
+	switch e.Script {
+	case scripts[0], scripts[2], scripts[3]:
+		sv.Assert("C08.cyclic.plain_field", zzSame(sv, out, zStr(name)))
+	case scripts[1]:
+		sv.Assert("C08.cyclic.plain_field", zzSame(sv, out, zInt(2)))
+	}
 }
